@@ -351,7 +351,7 @@ class World:
         self.unwatch_all(tag)
         K = r.randrange(2, 6)
         ai = r.randrange(K)
-        op = r.choice(["unwatch-self", "unwatch-other", "unwatch-other", "unwatch-all", "watch-new", "unwatch-self-then-rewatch-later"])
+        op = r.choice(["unwatch-self", "unwatch-other", "unwatch-other", "unwatch-all", "watch-new", "unwatch-self-then-rewatch-later", "hand-over", "hand-over"])
         log, removed, acted, obs = [], {}, [], []
         other = r.choice([j for j in range(K) if j != ai]) if K > 1 else None
 
@@ -373,6 +373,11 @@ class World:
                         acc.unwatch_all()
                         for j in range(K):
                             removed[j] = len(log)
+                    elif op == "hand-over":
+                        # one observer goes, another comes, in the same notification (the list keeps its length)
+                        acc.unwatch(obs[other])
+                        removed[other] = len(log)
+                        acc.watch(newcomer)
                     else:
                         acc.watch(newcomer)
 
